@@ -194,6 +194,10 @@ func (d *delivered) checkBuffer(what string, b *imapclient.FetchMessageBuffer) {
 
 // runStream feeds stream to a client with the full battery pending and
 // returns what was delivered plus the reader's error.
+// reauth: run UNAUTHENTICATE + LOGIN + SELECT before the battery (set by the
+// property for a share of the cases).
+var reauth bool
+
 func runStream(t fataler, stream []byte, what string) (*delivered, error) {
 	persist(stream)
 	defer unpersist()
@@ -237,6 +241,20 @@ func runStream(t fataler, stream []byte, what string) (*delivered, error) {
 	sEnd.Write([]byte("T1 OK [CAPABILITY IMAP4rev1 UIDPLUS MOVE ESEARCH ENABLE SORT THREAD=REFERENCES QUOTA METADATA NAMESPACE LITERAL+] in\r\n* 9 EXISTS\r\n* FLAGS (\\Seen)\r\nT2 OK [READ-WRITE] selected\r\n"))
 	login.Wait()
 	sel.Wait()
+	firstTag := 3
+	if reauth {
+		// the connection has a history: UNAUTHENTICATE and a second LOGIN precede
+		// the battery (what the client resets then is used by later responses)
+		un := c.Unauthenticate() // T3
+		sEnd.Write([]byte("T3 OK [CAPABILITY IMAP4rev1 UIDPLUS MOVE ESEARCH ENABLE SORT THREAD=REFERENCES QUOTA METADATA NAMESPACE LITERAL+ UNAUTHENTICATE] unauthenticated\r\n"))
+		un.Wait()
+		login2 := c.Login("u", "p") // T4
+		sel3 := c.Select("INBOX", nil) // T5
+		sEnd.Write([]byte("T4 OK [CAPABILITY IMAP4rev1 UIDPLUS MOVE ESEARCH ENABLE SORT THREAD=REFERENCES QUOTA METADATA NAMESPACE LITERAL+] in\r\n* 9 EXISTS\r\nT5 OK [READ-WRITE] selected\r\n"))
+		login2.Wait()
+		sel3.Wait()
+		firstTag = 6
+	}
 	n := len(stream)
 	// the battery: one pending command of every response-consuming kind
 	capCmd := c.Capability()
@@ -257,7 +275,7 @@ func runStream(t fataler, stream []byte, what string) (*delivered, error) {
 	expCmd := c.Expunge()
 	enableCmd := c.Enable(imap.CapUTF8Accept)
 	sel2 := c.Select("other", nil)
-	lastTag := 20 // T3..T20 are the battery
+	lastTag := firstTag + 17 // the battery: 18 commands
 	// consumers of streaming commands must run while the reader works
 	spawn(func() {
 		bufs, _ := fetchCmd.Collect()
@@ -278,7 +296,7 @@ func runStream(t fataler, stream []byte, what string) (*delivered, error) {
 	// feed the stream, complete every tag, end the connection
 	sEnd.Write(stream)
 	var tail strings.Builder
-	for i := 3; i <= lastTag; i++ {
+	for i := firstTag; i <= lastTag; i++ {
 		fmt.Fprintf(&tail, "T%d OK done\r\n", i)
 	}
 	sEnd.Write([]byte(tail.String()))
@@ -454,9 +472,14 @@ func genStream(t *rapid.T) (stream string, mode string, kinds []string) {
 func TestPropStream(t *testing.T) {
 	rapid.Check(t, func(t *rapid.T) {
 		stream, mode, kinds := genStream(t)
+		reauth = rapid.IntRange(0, 3).Draw(t, "reauth") == 0
+		defer func() { reauth = false }()
+		if reauth {
+			ev.Class("history:unauthenticate+login-before-the-stream")
+		}
 		d, rerr := runStream(t, []byte(stream), mode)
 		if len(d.violations) > 0 {
-			t.Fatalf("[%s] %s\nstream: %q\nreader error: %v", mode, strings.Join(d.violations, "\n"), clip(stream), rerr)
+			t.Fatalf("[%s reauth=%v] %s\nstream: %q\nreader error: %v", mode, reauth, strings.Join(d.violations, "\n"), clip(stream), rerr)
 		}
 		ev.Eval()
 		ev.Class("mode:" + mode)
